@@ -1126,11 +1126,24 @@ def run(ctx):
 WITNESSES = [
     dict(name='with_tags_append_moment',
          ops={'1': dict(q=[0], mk=[], ck=[], pn=[], kind='u'), '2': dict(q=[0], mk=[], ck=[], pn=[], kind='u')},
-         calls=[dict(c='new', items=[1], s='EARLIEST'), dict(c='with_tags'), dict(c='append', items=[{'m': [2]}], s='EARLIEST')]),
+         final=[[2], [1]],
+         calls=[dict(c='new', items=[{'m': [1]}], s='EARLIEST'), dict(c='with_tags'), dict(c='append', items=[{'m': [2]}], s='EARLIEST')]),
     dict(name='concat_ragged_control_before_measurement',
          ops={'1': dict(q=[0], mk=[], ck=[], pn=[], kind='u'), '2': dict(q=[0], mk=[0], ck=[], pn=[], kind='meas'),
               '3': dict(q=[1], mk=[], ck=[0], pn=[], kind='cc')},
+         final=[[1, 3], [2]],
          calls=[dict(c='new', items=[{'m': [1]}, {'m': [2]}], s='EARLIEST'), dict(c='concat', others=[[[3]]], align='LEFT')]),
+    dict(name='batch_insert_shift',
+         ops={'1': dict(q=[0], mk=[], ck=[], pn=[], kind='u'), '2': dict(q=[1], mk=[], ck=[], pn=[], kind='u'),
+              '3': dict(q=[2], mk=[], ck=[], pn=[], kind='u'), '4': dict(q=[1], mk=[], ck=[], pn=[], kind='u'),
+              '5': dict(q=[2], mk=[], ck=[], pn=[], kind='u')},
+         final=[[1, 4], [2], [3], [5]],
+         calls=[dict(c='new', items=[{'m': [1]}, {'m': [2]}, {'m': [3]}], s='EARLIEST'), dict(c='binsert', ins=[[0, [4]], [2, [5]]])]),
+    dict(name='insert_at_frontier_same_key',
+         ops={'1': dict(q=[3], mk=[], ck=[], pn=[], kind='u'), '2': dict(q=[3], mk=[0], ck=[], pn=[], kind='meas'),
+              '3': dict(q=[2], mk=[0], ck=[], pn=[], kind='meas')},
+         final=[[1, 3], [2]],
+         calls=[dict(c='frontier', items=[1, 2, 3], start=0, f=None)]),
 ]
 
 
@@ -1141,6 +1154,10 @@ def witness_stream(ctx, cirq, vocab):
         w = World(cirq, vocab, doc['ops'])
         calls, trace, problems = run_history(w, doc['calls'], random.Random(0))
         ctx.count('witness', doc, True, sample=dict(name=wdoc['name'], final_moments=trace[-1][1]))
+        if trace[-1][1] != wdoc['final']:
+            ctx.mark_broken('witness:' + wdoc['name'],
+                            f'the refuted theorem in Props/C05.v states the final moments {wdoc["final"]}, the implementation gives {trace[-1][1]} '
+                            '(if the defect was repaired, the theorem and the known finding must be retired)')
         for (step, kind, what) in problems:
             report_problem(ctx, cirq, vocab, w, calls, step, kind, what)
 
